@@ -310,9 +310,11 @@ class DomainDefinition:
         point_dat = {}
         cell_dat = {}
         for key, vec in vectors.items():
-            if vec.size % self.nel == 0:
+            # Block-vectors are classified by the length of their axes, vectors by their size
+            sizes = vec.shape if vec.ndim == 2 else (vec.size,)
+            if any(s % self.nel == 0 for s in sizes):
                 cell_dat[key] = vec
-            elif vec.size % self.nnodes == 0:
+            elif any(s % self.nnodes == 0 for s in sizes):
                 point_dat[key] = vec
             else:
                 warnings.warn(f"Vector {key} is neither cell- nor point-data. Skipping vector...")
